@@ -3,6 +3,7 @@ package main
 import (
 	"bytes"
 	"fmt"
+	"os"
 	"runtime"
 	"runtime/debug"
 	"sort"
@@ -42,7 +43,7 @@ func sequential(seg segment.Segment) (*seqAnswers, error) {
 }
 
 // one reader call of a random kind; returns a description of a wrong answer, or "".
-func readerCall(r *zh.Rng, seg segment.Segment, a *seqAnswers) (kind string, bad string) {
+func readerCall(r *zh.Rng, seg segment.Segment, a *seqAnswers, rc *zh.Recycled) (kind string, bad string) {
 	defer func() {
 		if e := recover(); e != nil {
 			bad = fmt.Sprintf("PANIC in %s: %v", kind, e)
@@ -61,7 +62,16 @@ func readerCall(r *zh.Rng, seg segment.Segment, a *seqAnswers) (kind string, bad
 			return kind, err.Error()
 		}
 		th := fd.Terms[r.Intn(len(fd.Terms))]
-		hits, cnt, err := zh.ReadPostings(d, []byte(th.Term), nil)
+		// the reader recycles its own postings list / iterator (prealloc), also after a lookup that missed
+		if r.Chance(3) {
+			kind = "dictionary+postings(absent term, recycled objects)"
+			miss, mcnt, err := zh.ReadPostingsReuse(d, []byte("\xf0zz-no-such-term"), nil, rc)
+			if err != nil || mcnt != 0 || len(miss) != 0 {
+				return kind, fmt.Sprintf("a term that is not in %s yields %d postings, Count %d (err %v)", fd.Field, len(miss), mcnt, err)
+			}
+			kind = "dictionary+postings(recycled objects)"
+		}
+		hits, cnt, err := zh.ReadPostingsReuse(d, []byte(th.Term), nil, rc)
 		if err != nil {
 			return kind, err.Error()
 		}
@@ -190,13 +200,17 @@ func readerCall(r *zh.Rng, seg segment.Segment, a *seqAnswers) (kind string, bad
 }
 
 func checkC11(c *ctx) {
-	c.Rule = "a shared segment (in memory or mmap-opened; ordinary + synonym documents, stored arrays, doc values in several chunks) is read by 2-16 goroutines issuing random calls (dictionary+postings, full stored visits with a byte-stability check inside the callback, visits stopped after the first field, DocID, DocNumbers, doc-value visits with a private state, thesaurus listings) while 1-2 goroutines merge it; every answer is compared with the sequential answer; the binary is built with the race detector; preceding call histories (early-stopped visits, DocID, merges) are replayed first and the scratch-object pool is probed for duplicate hand-outs against the extracted pool model; non-trivial = schedule with >= 4 goroutines and >= 1 concurrent merge"
+	c.Rule = "a shared segment (in memory or mmap-opened; ordinary + synonym documents, stored arrays, doc values in several chunks) is read by 2-16 goroutines issuing random calls (dictionary+postings with each reader recycling its own postings list and iterator as prealloc - also after lookups that missed, full stored visits with a byte-stability check inside the callback, visits stopped after the first field, DocID, DocNumbers, doc-value visits with a private state, thesaurus listings) while 1-2 goroutines merge it; every answer is compared with the sequential answer; the binary is built with the race detector; preceding call histories (early-stopped visits, DocID, merges) are replayed first and the scratch-object pool is probed for duplicate hand-outs against the extracted pool model; non-trivial = schedule with >= 4 goroutines and >= 1 concurrent merge"
 	c.Assumptions = append(c.Assumptions, "data-race freedom is observed with the race detector on sampled schedules, not proved (Go memory model is outside the Coq model)",
 		"sync.Pool: Get returns any pooled object or a fresh one; every pool operation is atomic")
 	old := debug.SetGCPercent(-1) // keep sync.Pool contents alive so that histories shape the pool
 	defer debug.SetGCPercent(old)
 	saved := zap.LegacyChunkMode
 	defer func() { zap.LegacyChunkMode = saved }()
+	if bad := sameProcessorMerge(c); bad != "" {
+		c.Violation("C11 a merge that re-encodes stored fields (deletions) next to a reader scheduled on the same processor (GOMAXPROCS=1, so both draw the same pooled scratch object)\n"+bad, false)
+		return
+	}
 	rounds := c.n(40, 800)
 	for i := 0; i < rounds; i++ {
 		zap.LegacyChunkMode = []uint32{2, 3, 1024}[c.R.Intn(3)]
@@ -248,8 +262,9 @@ func checkC11(c *ctx) {
 			go func() {
 				defer wg.Done()
 				<-start
+				rc := &zh.Recycled{}
 				for k := 0; k < 40; k++ {
-					if kind, bad := readerCall(r, e.seg, ans); bad != "" {
+					if kind, bad := readerCall(r, e.seg, ans, rc); bad != "" {
 						errs <- kind + ": " + bad
 						return
 					}
@@ -318,4 +333,119 @@ func checkC11(c *ctx) {
 		}
 		e.close()
 	}
+}
+
+// sameProcessorMerge: documents with many equal-sized stored values; a merge with deletions runs
+// while a reader on the same P keeps visiting documents; the merged stored fields must be those of
+// the surviving input documents and the reader's answers the sequential ones.
+func sameProcessorMerge(c *ctx) string {
+	nd, nv, merges := c.n(120, 300), c.n(500, 1200), c.n(3, 16)
+	var b zh.Batch
+	for d := 0; d < nd; d++ {
+		doc := zh.Doc{Fields: []zh.Field{zh.IDField(fmt.Sprintf("p%04d", d))}}
+		for v := 0; v < nv; v++ {
+			doc.Fields = append(doc.Fields, zh.Field{Name: "body", Stored: true, Typ: 't', Val: []byte(fmt.Sprintf("%04d-%04d", d, v)), Len: 1, AP: []uint64{uint64(v)}})
+		}
+		b = append(b, doc)
+	}
+	sb, _, err := zh.Build(b, 1026)
+	if err != nil {
+		return "build failed: " + err.Error()
+	}
+	seq := make([][]string, nd)
+	for d := 0; d < nd; d++ {
+		sb.VisitStoredFields(uint64(d), func(field string, typ byte, value []byte, pos []uint64) bool {
+			seq[d] = append(seq[d], field+"="+string(value))
+			return true
+		})
+	}
+	old := runtime.GOMAXPROCS(1)
+	defer runtime.GOMAXPROCS(old)
+	stop := make(chan struct{})
+	rerr := make(chan string, 1)
+	var wg sync.WaitGroup
+	wg.Add(1)
+	go func() {
+		defer wg.Done()
+		r := c.R.Fork()
+		for {
+			select {
+			case <-stop:
+				return
+			default:
+			}
+			d := r.Intn(nd)
+			i := 0
+			bad := ""
+			sb.VisitStoredFields(uint64(d), func(field string, typ byte, value []byte, pos []uint64) bool {
+				if i >= len(seq[d]) || seq[d][i] != field+"="+string(value) {
+					bad = fmt.Sprintf("reader: doc %d value %d = %q differs from the sequential answer", d, i, value)
+					return false
+				}
+				i++
+				return true
+			})
+			if bad != "" {
+				select {
+				case rerr <- bad:
+				default:
+				}
+				return
+			}
+			runtime.Gosched()
+		}
+	}()
+	result := ""
+	for m := 0; m < merges && result == ""; m++ {
+		drops := roaring.New()
+		for d := 0; d < nd; d += 7 + m {
+			drops.Add(uint32(d))
+		}
+		path := zh.TmpPath("c11p")
+		_, _, err := zap.VerifMerge([]segment.Segment{sb}, []*roaring.Bitmap{drops}, path, 1026, nil, nil)
+		if err != nil {
+			result = "merge failed: " + err.Error()
+			break
+		}
+		s, err := zh.Plugin.Open(path)
+		if err != nil {
+			result = "merge output cannot be opened: " + err.Error()
+			break
+		}
+		nn := uint64(0)
+		for d := 0; d < nd && result == ""; d++ {
+			if drops.Contains(uint32(d)) {
+				continue
+			}
+			i := 0
+			s.VisitStoredFields(nn, func(field string, typ byte, value []byte, pos []uint64) bool {
+				if result == "" && (i >= len(seq[d]) || seq[d][i] != field+"="+string(value)) {
+					result = fmt.Sprintf("merge %d: merged document %d (input document %d) stored value %d = %q, the input document has %q", m, nn, d, i, value, seq[d][min(i, len(seq[d])-1)])
+				}
+				i++
+				return true
+			})
+			if result == "" && i != len(seq[d]) {
+				result = fmt.Sprintf("merge %d: merged document %d has %d stored values, input document %d has %d", m, nn, i, d, len(seq[d]))
+			}
+			nn++
+		}
+		s.Close()
+		os.Remove(path)
+		c.Count("same_processor_merges")
+	}
+	close(stop)
+	wg.Wait()
+	select {
+	case bad := <-rerr:
+		if result == "" {
+			result = bad
+		}
+	default:
+	}
+	c.Case("same-processor-merge", true)
+	if result != "" {
+		result += fmt.Sprintf("\n(%d documents x %d stored values of equal size, every (7+m)-th document deleted)", nd, nv)
+	}
+	return result
 }
